@@ -449,7 +449,13 @@ class Fn:
             elif d[0] == 'call':
                 t = d[2]
                 self._expr_cache[key] = ('var', local)  # break cycles
-                r = ('call', t['fn'], tuple(self.expr_of_op(a, depth - 1) for a in t['a']), d[1])
+                r = None
+                if t['fn'] in RETURNS_CLOSURE_RESULT and len(t['cls']) == 1 and self.facts is not None:
+                    cf = self.facts.fns.get(t['cls'][0])
+                    if cf is not None:
+                        r = cf.ret_expr(depth - 1)
+                if r is None:
+                    r = ('call', t['fn'], tuple(self.expr_of_op(a, depth - 1) for a in t['a']), d[1])
             else:
                 self._expr_cache[key] = ('var', local)
                 r = self.expr_of_rvalue(d[3], depth - 1)
@@ -506,6 +512,17 @@ class Fn:
             return ('aggr', rv[1], norm(rv[2]) if rv[1] in ('adt', 'closure') else rv[2],
                     tuple(self.expr_of_op(o, depth) for o in rv[3]))
         return ('other', rv[1] if len(rv) > 1 else '')
+
+    def ret_expr(self, depth=24):
+        """expression of the returned value when the return place has a single whole assignment"""
+        ds = [x for x in self.defs.get(0, []) if x[0] in ('s', 'call')]
+        if len(ds) != 1:
+            return None
+        d = ds[0]
+        if d[0] == 'call':
+            t = d[2]
+            return ('call', t['fn'], tuple(self.expr_of_op(a, depth) for a in t['a']), d[1])
+        return self.expr_of_rvalue(d[3], depth)
 
     # -- dominators (block level), for loop detection
     @property
@@ -580,6 +597,9 @@ def strip(e):
             return e
 
 
+# higher-order callees that call their closure exactly once and return its result
+RETURNS_CLOSURE_RESULT = {'tracing::Span::in_scope'}
+
 TRANSPARENT_CALLS = {
     '<proto::streams::store::Ptr as std::ops::Deref>::deref',
     '<proto::streams::store::Ptr as std::ops::DerefMut>::deref_mut',
@@ -617,7 +637,7 @@ def canon(e):
     if k in ('ref', 'deref'):
         r = canon(e[1])
     elif k == 'upvar':
-        r = ('upvar', canon(e[1]))
+        r = canon(e[1])
     elif k == 'cast':
         r = canon(e[1])
     elif k == 'call':
